@@ -403,7 +403,7 @@ func TestFastPathAgreesWithUserspace(t *testing.T) {
 				if rng.IntN(2) == 0 || script != nil {
 					c.relay = net.IPv4(10, 250, 0, byte(1+i))
 					if rng.IntN(4) != 0 || script != nil {
-						n := []int{1, 5, 12, 31, 32}[rng.IntN(5)]
+						n := []int{1, 5, 12, 31, 32, 33, 48}[rng.IntN(7)] // 33, 48: longer than the 32-byte key (cached by MAC only)
 						c.cid = make([]byte, n)
 						for j := range c.cid {
 							c.cid[j] = byte('a' + rng.IntN(26))
